@@ -6,7 +6,7 @@ import c05x
 
 LEVEL = "model_checking"
 
-IO_INV = "RoundTrip LayoutOK Emit"
+IO_INV = "RoundTrip LayoutOK StoredWritten PatternKept Emit"
 CK_INV = "RestoredRight FileOrdered FileComplete FileLayout Emit"
 ST_INV = "ReadRight LoadRight SizeOK NoOverlap ClearedIsNew WriteAfterClear Emit"
 LF_INV = "RestoredRight OffsExact InputIsLast LayoutOK GivenOverlap Emit"
@@ -48,15 +48,26 @@ def st_configs(tier):
     return [(5, 8, 8), (4, 4, 4)]
 
 
+# palettes (spec/Persist.tla): 1, 2 fixed values; 3 = EVERY assignment {palette value, +0, -0} to the stored entries (a stored zero
+# is a stored entry: text modes must list it, the pattern read back is the same; binary modes keep the sign of the zero);
+# 4 = as 3 without -0; 5 = square CSR with symmetric pattern / values and every symmetric assignment, adds the symmetric
+# MatrixMarket variant "mtxsym"; 6 = as 5 without the assignments
+ZERO_QUICK = [("dv", 4, 1, 1, 1, 3), ("dvb", 2, 1, 2, 1, 3), ("sv", 3, 1, 1, 1, 3), ("svb", 2, 1, 2, 1, 3), ("dm", 2, 2, 1, 1, 3),
+              ("csr", 2, 2, 1, 1, 3), ("csr", 2, 2, 1, 1, 5), ("bcsr", 2, 1, 2, 2, 3), ("bcsr", 1, 2, 2, 3, 3), ("cscr", 2, 2, 1, 1, 3), ("banded", 2, 2, 1, 1, 3)]
+ZERO_THOROUGH = [("dv", 5, 1, 1, 1, 3), ("dvb", 2, 1, 2, 1, 3), ("dvb", 1, 1, 3, 1, 3), ("sv", 4, 1, 1, 1, 3), ("svb", 2, 1, 2, 1, 3), ("dm", 2, 2, 1, 1, 3),
+                 ("dm", 2, 3, 1, 1, 4), ("csr", 2, 2, 1, 1, 3), ("csr", 2, 3, 1, 1, 4), ("csr", 3, 2, 1, 1, 4), ("csr", 2, 2, 1, 1, 5), ("csr", 3, 3, 1, 1, 6),
+                 ("bcsr", 2, 2, 2, 2, 3), ("bcsr", 1, 2, 2, 3, 3), ("cscr", 2, 2, 1, 1, 3), ("banded", 2, 2, 1, 1, 3), ("banded", 2, 3, 1, 1, 4)]
+
+
 def io_configs(tier):
     if tier == "thorough":
         return [("dv", 6, 1, 1, 1, 1), ("dv", 4, 1, 1, 1, 2), ("dvb", 4, 1, 2, 1, 1), ("dvb", 3, 1, 3, 1, 2), ("sv", 5, 1, 1, 1, 1), ("sv", 4, 1, 1, 1, 2),
                 ("svb", 4, 1, 2, 1, 1), ("dm", 3, 4, 1, 1, 1), ("dm", 4, 3, 1, 1, 2), ("csr", 3, 3, 1, 1, 1), ("csr", 2, 4, 1, 1, 2), ("csr", 4, 2, 1, 1, 1),
                 ("bcsr", 2, 3, 2, 2, 1), ("bcsr", 3, 2, 2, 3, 2), ("cscr", 3, 2, 1, 1, 1), ("cscr", 2, 3, 1, 1, 2), ("banded", 3, 3, 1, 1, 1), ("banded", 2, 4, 1, 1, 2),
-                ("banded", 4, 2, 1, 1, 1)]
+                ("banded", 4, 2, 1, 1, 1)] + ZERO_THOROUGH
     return [("dv", 4, 1, 1, 1, 1), ("dvb", 3, 1, 2, 1, 1), ("dvb", 2, 1, 3, 1, 2), ("sv", 4, 1, 1, 1, 1), ("svb", 3, 1, 2, 1, 2),
             ("dm", 3, 3, 1, 1, 1), ("csr", 3, 2, 1, 1, 1), ("csr", 2, 3, 1, 1, 2), ("bcsr", 2, 2, 2, 2, 1), ("bcsr", 2, 2, 2, 3, 2),
-            ("cscr", 2, 2, 1, 1, 1), ("cscr", 3, 2, 1, 1, 2), ("banded", 3, 3, 1, 1, 1), ("banded", 2, 3, 1, 1, 2)]
+            ("cscr", 2, 2, 1, 1, 1), ("cscr", 3, 2, 1, 1, 2), ("banded", 3, 3, 1, 1, 1), ("banded", 2, 3, 1, 1, 2)] + ZERO_QUICK
 
 
 def ck_configs(tier):
@@ -157,6 +168,7 @@ def sig(c, r):
     nnz = len(c["rep"].get("ci", c["rep"].get("idx", c["rep"].get("va", []))))
     why = r.get("why") or ""
     return {"part": "io", "kind": c["kind"], "mode": c["mode"], "m": c["m"], "n": c["n"], "nnz": nnz, "empty_row": has_empty_row(c),
+            "stored_zeros": sum(c.get("zeros", [0, 0])) > 0, "stored_negative_zeros": c.get("zeros", [0, 0])[1] > 0,
             "no_arrays": len(c["arrays"]["el"]) == 0, "alloc": bool(c.get("alloc")), "stage": "read" if "/read" in why else ("write" if "/write" in why else "other"),
             "outcome": r.get("outcome", "mismatch")}
 
@@ -216,10 +228,26 @@ def run(chk):
     chk.extra["binary_streams_parsed"] = sum(1 for c in cases if c["part"] == "io" and c["file"]["fmt"] == "bin") + sum(len(c["entries"]) for c in cases if c["part"] == "ckpt")
     chk.extra["text_streams_parsed"] = sum(1 for c in cases if c["part"] == "io" and c["file"]["fmt"] == "text")
     chk.extra["kinds_x_modes"] = sorted(set("%s/%s" % (c["kind"], c["mode"]) for c in cases if c["part"] == "io"))
+    # non-vacuity of the stored-zero palettes: behaviours whose container holds a stored (+/-)0, per kind/mode
+    zc = {}
+    for c in cases:
+        if c["part"] == "io" and sum(c.get("zeros", [0, 0])) > 0:
+            k = "%s/%s" % (c["kind"], c["mode"])
+            zc[k] = zc.get(k, 0) + 1
+    chk.extra["behaviours_with_stored_zeros"] = zc
+    chk.extra["text_behaviours_with_stored_zeros"] = sum(v for k, v in zc.items() if k.split("/")[1] in ("mtx", "mtxsym", "exp"))
+    chk.extra["behaviours_with_stored_negative_zero"] = sum(1 for c in cases if c["part"] == "io" and c.get("zeros", [0, 0])[1] > 0)
+    need = [k for k in chk.extra["kinds_x_modes"] if zc.get(k, 0) == 0]
+    if need:
+        raise vlib.MachineryError("stored-zero palettes are vacuous for %s" % need)
     chk.rule = ("every behaviour of spec/Persist.tla: container kind (DenseVector, DenseVectorBlocked, SparseVector, SparseVectorBlocked, DenseMatrix, "
                 "CSR, BCSR, CSCR, Banded) x all shapes up to the bound (length 0, empty rows, no entries) x all sparsity patterns / index sets x every "
                 "file mode of the kind (text modes, native binary, fm_binary, serialize<DT2,IT2> for DT2 in {float,double}, IT2 in {u32,u64}) x container "
-                "types (double,u64),(float,u32); Write then Read; every produced stream is parsed independently and compared with the predicted "
+                "types (double,u64),(float,u32); additionally per kind EVERY assignment {palette value, +0, -0} to the stored entries (BCSR: per stored "
+                "block) at smaller bounds - a stored zero is a stored entry: the text modes must list it (invariants StoredWritten, PatternKept), "
+                "used_elements()/indices/row_ptr/col_ind read back are compared as raw arrays, binary modes keep the sign bit of a zero - and square CSR "
+                "matrices with symmetric pattern / values also through the symmetric MatrixMarket variant write_out(fm_mtx, ., true); "
+                "Write then Read; every produced stream is parsed independently and compared with the predicted "
                 "layout (length, header words, array offsets / token sequence), the container read back with the predicted state.  "
                 "spec/PersistCkpt.tla: every subset of a 6 object palette (1..3(4) objects), every registration order, 3 identifier assignments with "
                 "identifiers that are prefixes of each other, every restore order.  spec/PersistStream.tla: every history of 5 (thorough 6) calls "
@@ -244,10 +272,12 @@ def run(chk):
         chk.sample({"stream_history": [(o["op"], o["arg"], o["size"], o["pos"]) for o in c["ops"]]}, cap=7)
     for c in [x for x in cases if x["part"] == "life" and nontrivial(x)][-1:]:
         chk.sample({"checkpoint_life_history": [(o["op"], o["i"], o["s"], o["add"], "restorable", o["rst"]) for o in c["ops"]]}, cap=8)
-    chk.assumptions = ["values are dyadic (numerators over 4): general decimal rounding of the text formats is not explored (DESIGN.md sec. 7 residue)",
+    chk.assumptions = ["values are dyadic (numerators over 4) plus +0 / -0: general decimal rounding of the text formats is not explored (DESIGN.md sec. 7 residue)",
                        "zlib/zfp compression modes are compiled out of the baseline build and out of scope",
                        "container round trips go through std::stringstream / std::vector<char> / BinaryStream; the file-name overloads are sampled",
                        "BCSR has no MatrixMarket reader: its MatrixMarket output is read back through the CSR reader",
+                       "SparseVectorBlocked, CSCR and Banded support binary modes only (no text mode exists in the code); a text round trip is "
+                       "compared by value, so the SIGN of a stored zero is demanded for the binary modes only",
                        "containers are built through the raw-array constructors (canonical sorted arrays, allocated == used for sparse vectors)",
                        "CheckpointControl life histories: calls outside the documented preconditions (restore of an identifier the loaded input does not "
                        "contain, load while input is loaded, add of a registered / remove of an unregistered identifier) must be REFUSED by XASSERT; "
